@@ -575,8 +575,7 @@ def abstract_apply(A, t, e, touched):
         if k is not None and k < len(A["tr_number"]):
             vals += ["(", Fraction(A["tr_number"][k]), ")"]
         elif k is not None:
-            old = t.get(("cell", i, "fill", None))
-            vals += list(old[1:]) if old else []
+            vals += list(A.get("fill_tail", {}).get(i, []))
         put(("cell", i, "fill", None), vals)
 
     def surf_pointer(i):
